@@ -1,0 +1,21 @@
+// Verification hooks (cargo feature `verif-hooks`, off by default). Not part of the public API.
+
+//! Hooks used by the external runtime-verification harness. Only compiled with the
+//! `verif-hooks` feature.
+
+use chrono::{DateTime, Utc};
+use std::cell::Cell;
+
+thread_local! {
+    static VIRTUAL_NOW: Cell<Option<DateTime<Utc>>> = const { Cell::new(None) };
+}
+
+/// Sets (or clears) the virtual time that replaces the sampled system time on this thread.
+pub fn set_time(time: Option<DateTime<Utc>>) {
+    VIRTUAL_NOW.with(|c| c.set(time));
+}
+
+/// Returns the virtual time of this thread if one is set, `real` otherwise.
+pub fn now_or(real: DateTime<Utc>) -> DateTime<Utc> {
+    VIRTUAL_NOW.with(Cell::get).unwrap_or(real)
+}
